@@ -43,10 +43,14 @@ const (
 
 // ParseFrugal parses the given Frugal file into its semantic representation.
 func ParseFrugal(filePath string) (*Frugal, error) {
-	return parseFrugal(filePath, []string{}, map[string]*Frugal{})
+	return parseFrugal(filePath, []string{}, []string{}, map[string]*Frugal{})
 }
 
-func parseFrugal(filePath string, visitedIncludes []string, cache map[string]*Frugal) (*Frugal, error) {
+// parseFrugal parses the file and, recursively, the files it includes.
+// visitedIncludes and visitedPaths hold the names and the cleaned paths of the
+// files which are being parsed (the chain of includes which leads to this
+// file).
+func parseFrugal(filePath string, visitedIncludes, visitedPaths []string, cache map[string]*Frugal) (*Frugal, error) {
 	file, err := os.Open(filePath)
 	if err != nil {
 		return nil, err
@@ -58,8 +62,20 @@ func parseFrugal(filePath string, visitedIncludes []string, cache map[string]*Fr
 		return nil, err
 	}
 
-	if contains(visitedIncludes, name) {
+	// A file which is being parsed includes itself, directly or not
+	path := filepath.Clean(filePath)
+	if contains(visitedPaths, path) {
 		return nil, fmt.Errorf("Circular include: %s", append(visitedIncludes, name))
+	}
+
+	// A different file of the same name is not a cycle. Includes are referred
+	// to and generated code is named by the file name, though, so that the
+	// two cannot be told apart.
+	for i, visited := range visitedIncludes {
+		if visited == name {
+			return nil, fmt.Errorf("Duplicate file name %s: %s is included by way of %s (includes and generated code are named after the file name)",
+				name, path, visitedPaths[i])
+		}
 	}
 
 	if cached, ok := cache[filePath]; ok {
@@ -67,6 +83,7 @@ func parseFrugal(filePath string, visitedIncludes []string, cache map[string]*Fr
 	}
 
 	visitedIncludes = append(visitedIncludes, name)
+	visitedPaths = append(visitedPaths, path)
 
 	parsed, err := ParseReader(filePath, file)
 	if err != nil {
@@ -84,7 +101,7 @@ func parseFrugal(filePath string, visitedIncludes []string, cache map[string]*Fr
 			return nil, fmt.Errorf("Bad include name: %s", include)
 		}
 
-		parsedIncl, err := parseFrugal(filepath.Join(frugal.Dir, include), visitedIncludes, cache)
+		parsedIncl, err := parseFrugal(filepath.Join(frugal.Dir, include), visitedIncludes, visitedPaths, cache)
 		if err != nil {
 			return nil, fmt.Errorf("Include %s: %s", include, err)
 		}
